@@ -23,6 +23,9 @@ META = {
               'c, c+1, .. in steps of one for the vertex whose triple contains that plane, which is exchanged into position c and becomes the current vertex. The rotation sense (+1) is the '
               'one the face-less decomposition uses (C14.R5: in plane dual[i] a vertex is entered over the edge shared with dual[i-1] and left over the edge shared with dual[i+1]), so '
               'fans over the sorted polygons and the face-less tetrahedra have the same sign; Vertex::plane_idx returns the position of a plane in the triple',
+        'R9': 'no spurious vertices from undecided ties (C05.R3): the value the clip routine tests comes from the float filter only where the filter is conclusive — its error bound '
+              'dominates the rounding error of n.v - d term by term (sum over axes of |n_c||p_c|, not |n.p|) — and from the exact predicate otherwise; a tie decided by noise clips a vertex that '
+              'lies on a touching plane and leaves coincident vertices and zero-area faces (polygons not simple, V - E + F != 2)',
         'R7': 'face incidence bookkeeping in with_faces: one vertex list per clipping plane; every vertex index is appended to the lists of exactly its three dual planes (dual[0], dual[1], dual[2], '
               'once each, unconditionally); each list is ordered by sort_face_vertices for its own plane; a face is created for list i iff it is non-empty, with clipping_plane = i, '
               'vertex_count = len(list i) and vertex_offset = running sum of the previous counts (from 0); the connection array is the in-order concatenation of the lists',
@@ -44,7 +47,7 @@ def run(ctx):
     for cfg in ctx.configs_used:
         F = ctx.facts(cfg)
         sfx = '' if cfg == 'default' else '@' + cfg
-        fns = (r1, r2, r3, r4, r5, r6, r7, r8) if cfg == 'default' else (r1, r2, r3, r5, r6, r7)
+        fns = (r1, r2, r3, r4, r5, r6, r7, r8, r9) if cfg == 'default' else (r1, r2, r3, r5, r6, r7)
         for fn in fns:
             rule = 'C15.' + fn.__name__.upper()
             ctx.guarded(rule, 'evaluate' + sfx, lambda: fn(ctx, F, rule, sfx))
@@ -607,3 +610,8 @@ def r8(ctx, F, rule, sfx):
             elif k2.is_const():
                 okb = (op == '>' and k2.const_value() == -1) or (op == '>=' and k2.const_value() == -2)
     ctx.check(rule, 'walk-fills-all-but-the-last-position' + sfx, okb, repr(hb[0])[:120] if hb else 'no bound on the position', 'while cur_idx < len - 1', w, key_extra='bound')
+
+
+def r9(ctx, F, rule, sfx):
+    from . import c05
+    c05.r3(ctx, F, rule, sfx)
